@@ -43,6 +43,7 @@ def execute(sc):
                             trace_files=[FILES['asyncio']] if trace else (),
                             max_steps=sc.get('max_steps', 40000)))
     ctl.interesting = _INTERESTING
+    ctl.stalls = {k: v for k, v in sc.get('stalls', {}).items()}
     asyncio.set_event_loop_policy(rt.VPolicy())
     src = sc['src']
     kind = src['kind']
